@@ -16,12 +16,18 @@ def check(run, only=None):
         uhs = [h for h in uhs if only in h.name]
     ov = Overlay(run, "c06")
     ov.preamble(parsecells.HELPERS, pre + upre)
+    unipre, unihs = parsecells.gen_unicode(run.tier, False)
+    if only:
+        unihs = [h for h in unihs if only in h.name]
+    ov.preamble(parsecells.UNESCAPE_RS, unipre)
+    for h in unihs:
+        ov.add(parsecells.UNESCAPE_RS, h)
     for h in hs:
         ov.add(parsecells.HELPERS, h)
     for h in uhs:
         ov.add(parsecells.UNESCAPE, h)
     ov.write()
-    allh = hs + uhs
+    allh = hs + uhs + unihs
     light = [h for h in allh if not h.heavy]
     heavy = [h for h in allh if h.heavy]
     res = run_kani(run, light, timeout_s=240 if run.tier == "quick" else 900, tag="light")
@@ -40,12 +46,13 @@ def check(run, only=None):
 
 
 def replay(run, path):
+    import json
     from ..replay import replay_file
     syn = synx.Syntax(run)
     pre, hs = parsecells.gen_nopanic(syn, "thorough")
     upre, uhs = parsecells.gen_unescape(syn, "thorough", mode="c06")
-    import json
+    unipre, unihs = parsecells.gen_unicode("thorough", False)
     name = json.load(open(path))["replay"]["harness"]
-    if any(h.name == name for h in uhs):
-        return replay_file(run, path, gen_all=lambda: uhs, file=parsecells.HELPERS, tag="c06", preamble=pre + upre)
-    return replay_file(run, path, gen_all=lambda: hs, file=parsecells.HELPERS, tag="c06", preamble=pre + upre)
+    if any(h.name == name for h in unihs):
+        return replay_file(run, path, gen_all=lambda: unihs, file=parsecells.UNESCAPE_RS, tag="c06", preamble=unipre)
+    return replay_file(run, path, gen_all=lambda: hs + uhs, file=parsecells.HELPERS, tag="c06", preamble=pre + upre)
